@@ -1,6 +1,6 @@
 SPECIFICATION Spec
 CONSTANTS
-  MaxBlocks = 6
+  MaxBlocks = 5
   MaxEmit = 2
   MinInclusion = 1
 VIEW view
